@@ -59,23 +59,10 @@ Proof.
   destruct (is_arg0 e); [|reflexivity]. cbn [negb orb] in *. rewrite (Hlang Ha). reflexivity.
 Qed.
 
-(* still open: the parameter mask has 16 bits; the register-ness of an argument beyond the 16th parameter is dropped
-   without a diagnostic (the `too many arguments` check of encode_args compares trailing_zeros of a u16 with 16 and can
-   never fire).  17 dword parameters, the last argument a register: accepted, no warning, reads back as the immediate 10000. *)
-Definition maskoverflow_sig : list enc := repeat (EInt 4 true false false) 17.
-Definition maskoverflow_args : list arg := repeat (int_arg 0) 16 ++ [mkarg (AInt 10000) true].
-Definition maskoverflow_read : list arg := repeat (int_arg 0) 16 ++ [mkarg (AInt 10000) false].
-Definition maskoverflow_witness : Prop :=
-  validate maskoverflow_sig = true /\
-  exists r st', encode_args (fun _ => None) gen_codec true maskoverflow_sig maskoverflow_args None = Ok (r, st')
-                /\ r_warn r = [] /\ decode_call (fun _ => None) gen_codec maskoverflow_sig r = Ok (maskoverflow_read, []).
-
-Lemma maskoverflow_refuted : cd_mask_overflow_checked gen_codec = false -> maskoverflow_witness.
-Proof.
-  intro E. first [ vm_compute in E; discriminate E
-                 | unfold maskoverflow_witness; split; [vm_compute; reflexivity|];
-                   eexists; eexists; split; [vm_compute; reflexivity|]; split; vm_compute; reflexivity ].
-Qed.
+(* 9b3b50b: a register argument for which the 16-bit parameter mask has no bit left is reported (before the repair the
+   `too many arguments` check could never fire and such a register was stored as an immediate without a diagnostic) *)
+Lemma gen_mask_overflow_checked : cd_mask_overflow_checked gen_codec = true.
+Proof. vm_compute. reflexivity. Qed.
 
 Lemma accepted_call_never_panics_gen :
   forall (sjis_enc : list Z -> option bytes) lang_arg0 ps sig args has_regs st,
